@@ -2,8 +2,8 @@ package main
 
 // `dynfn <cfg> <kind> <L> <n> <field>`: the shape of function objects created at run time
 // (function expressions, new Function, Function.prototype.bind) – ES5 13.2 and 15.3.4.5.
-// Each request runs on a throw-away Copy() of the configuration's runtime: one of the fields
-// provokes a Go panic inside otto, after which a runtime is not to be reused.
+// Each request runs on a throw-away Copy() of the configuration's runtime (before /repo f48e83f the
+// descriptor fields provoked a Go panic inside otto, after which a runtime is not to be reused).
 
 import (
 	"fmt"
@@ -14,7 +14,7 @@ import (
 )
 
 var dynKinds = []string{"node", "newfn", "bound"}
-var dynFields = []string{"length", "hasproto", "protoattr", "ctor", "enumown", "callerdesc"}
+var dynFields = []string{"length", "hasproto", "protoattr", "ctor", "enumown", "callerdesc", "stackdesc"}
 
 func genDynFn(c *h.Ctx) {
 	for _, cfg := range cfgNames {
@@ -75,7 +75,22 @@ const dynJS = `
     return (d.value===f? "self" : "other")+"|"+attrs(d);
   }
   if(field==="enumown"){ var k=0; for(var p in f){ if(has.call(f,p)) k++; } return String(k); }
-  if(field==="callerdesc"){ Object.getOwnPropertyDescriptor(f,"caller"); return "ok"; }
+  // ES5 8.10.4: a descriptor object has exactly value/writable/enumerable/configurable or get/set/enumerable/configurable
+  function wellFormed(d){
+    if(d===undefined) return "ok";
+    var ns=Object.getOwnPropertyNames(d).sort().join();
+    if(ns==="configurable,enumerable,get,set"){
+      if(!(d.get===undefined || typeof d.get==="function")) return "malformed:get";
+      if(!(d.set===undefined || typeof d.set==="function")) return "malformed:set";
+    } else if(ns==="configurable,enumerable,value,writable"){
+      if(typeof d.writable!=="boolean") return "malformed:writable";
+    } else return "malformed:fields:"+ns;
+    if(typeof d.configurable!=="boolean") return "malformed:configurable";
+    if(d.enumerable!==false) return "enumerable";
+    return "ok";
+  }
+  if(field==="callerdesc") return wellFormed(Object.getOwnPropertyDescriptor(f,"caller"));
+  if(field==="stackdesc") return wellFormed(Object.getOwnPropertyDescriptor(new Error("m"),"stack"));
   return "bad-field";
 })
 `
